@@ -788,6 +788,12 @@ class Exec:
         if name == "float" and len(args) == 1 and isinstance(args[0], VStr):
             if z3.is_int_value(args[0].t) and V.str_of_code(args[0].t.as_long()) == "inf":
                 return [(Num(z3.RealVal(0), inf=z3.BoolVal(True)), st)]
+        if name == "enumerate" and len(args) == 1:
+            base = self.deref(args[0], st)
+            if not isinstance(base, SList):
+                raise Unsupported("enumerate of %r" % (base,))
+            at = base.at
+            return [(SList(base.len, lambda i: VTuple([Num(i), at(i)]), ("tuple", [("num", "int"), base.ekind])), st)]
         if name == "str" or name == "id" or name == "repr":
             return [(VOpaque(name), st)]
         if name == "print":
